@@ -1,24 +1,31 @@
-"""C06 — stream core (see stream_common.py and coq/Model/Stream.v)."""
+"""C06 — stream core (see stream_common.py and coq/Model/Stream.v) plus the datagram flows of the real code
+(DNS / UDP: see dgram_common.py, run_c06_dgram)."""
 import os
 import sys
 sys.path.insert(0, os.path.dirname(os.path.abspath(__file__)))
 import stream_common as sc  # noqa: E402
+import dgram_common as dc  # noqa: E402
 
 PROP = "C06"
 DRIVER_PROP = "C01"
 RULE = ("real ssnet.runonce on both tunnel ends over fake sockets, every micro-step replayed on the extracted model and the full "
         "state of both ends compared after every iteration; cases: tiny identifier spaces (MAX_CHANNEL 1..40) forcing wrap-around, exhaustion and re-use while old flows are closing; a case is non-trivial when at least one flow was "
-        "accepted; distinct by case seed")
-TRUSTED_BASE = sc.STREAM_TB
+        "accepted; distinct by case seed; PLUS datagram flows (real client functions on a real Mux, dgram_common.FlowTracker): DNS / UDP / TCP life cycles generated while watching the real code — sources going idle while later-opened ones stay active, late replies for closed identifiers, replies for open ones, MAX_CHANNEL 2..6 so that the cursor comes round to identifiers still owned; oracle on the wire and the delivered datagrams only")
+TRUSTED_BASE = sc.STREAM_TB + ["datagram part: the fake listener / reply / resolver sockets, select() and the two clocks (time.time and time.monotonic, different epochs) of harness/props/dgram_common.py stand for the kernel; it is an oracle on the real code only (the model comparison of the same code is done by ./check C10 and C11)"]
 ASSUMPTIONS = sc.STREAM_ASSUMPTIONS
 PROFILES = ["wrap","wrap","bulk","close","reuse"]
 
 
 def correspondence(ctx):
     sc.stream_check(ctx, PROP, PROFILES, 120, 2500)
+    # the identifiers of DNS / UDP flows (client.py ondns / onaccept_udp / expire_connections share the Mux allocator)
+    dc.run_c06_dgram(ctx)
+    ctx.programs = ctx.evaluations
 
 
 def replay(ctx, rp):
+    if rp.get("replay", {}).get("script"):
+        return bool(dc.replay_flows(PROP, rp))
     return sc.stream_replay(ctx, rp, PROP)
 
 
